@@ -239,8 +239,8 @@ pub struct PerCfg {
 }
 
 /// substituted reply kinds (what the channel delivers instead of the slave's answer)
-const SUBST: [&str; 9] = ["sc", "ue", "rr", "rs", "nr", "diaglike", "wronglen", "wrongsrc", "request"];
-const SUBST2: [&str; 4] = ["withsaps", "token", "garbage", "diagshort"];
+const SUBST: [&str; 14] = ["sc", "ue", "rr", "rs", "nr", "diaglike", "wronglen", "wrongsrc", "request", "onlydsap", "onlyssap", "withsaps", "diagflags", "diagflags"];
+const SUBST2: [&str; 5] = ["token", "garbage", "diagshort", "shortlen", "dhwrong"];
 
 fn substitute(kind: &str, maddr: u8, r: &Req, n_in: usize, rng: &mut impl Rng) -> Vec<u8> {
     match kind {
@@ -250,11 +250,33 @@ fn substitute(kind: &str, maddr: u8, r: &Req, n_in: usize, rng: &mut impl Rng) -
         "rs" => enc_data(maddr, r.da, None, None, 0x03, &[]),
         "nr" => enc_data(maddr, r.da, None, None, 0x09, &[]),
         "diaglike" => enc_data(maddr, r.da, Some(62), Some(60), 0x08, &[0x02, 0x05, 0, 255, 0x12, 0x00]),
+        "diagflags" => {
+            // every combination of the readiness-relevant flags, varied independently
+            let mut s1 = 0u8;
+            for bit in [0x02u8, 0x04, 0x40, 0x08] {
+                if rng.gen_bool(0.35) {
+                    s1 |= bit;
+                }
+            }
+            let s2 = 0x04 | if rng.gen_bool(0.4) { 0x01 } else { 0 } | if rng.gen_bool(0.2) { 0x08 } else { 0 };
+            let mut pdu = vec![s1, s2, 0, if rng.gen_bool(0.5) { 255 } else { maddr }, rng.gen(), rng.gen()];
+            if s1 & 0x08 != 0 {
+                let n = rng.gen_range(0..6);
+                for _ in 0..n {
+                    pdu.push(rng.gen());
+                }
+            }
+            enc_data(maddr, r.da, Some(62), Some(60), 0x08, &pdu)
+        }
         "diagshort" => enc_data(maddr, r.da, Some(62), Some(60), 0x08, &[0x02, 0x05, 0]),
         "wronglen" => enc_data(maddr, r.da, None, None, 0x08, &vec![7u8; n_in + 1]),
         "wrongsrc" => enc_data(maddr, r.da.wrapping_add(1) & 0x7f, None, None, 0x08, &vec![7u8; n_in]),
         "request" => enc_data(r.da, maddr, None, None, 0x6D, &[]),
         "withsaps" => enc_data(maddr, r.da, Some(62), Some(60), 0x08, &(0..n_in).map(|_| rng.gen()).collect::<Vec<u8>>()),
+        "onlydsap" => enc_data(maddr, r.da, Some([62u8, 0, 51][rng.gen_range(0..3)]), None, [0x08u8, 0x00, 0x0A][rng.gen_range(0..3)], &(0..n_in).map(|_| rng.gen()).collect::<Vec<u8>>()),
+        "onlyssap" => enc_data(maddr, r.da, None, Some([60u8, 0, 62][rng.gen_range(0..3)]), [0x08u8, 0x00, 0x0A][rng.gen_range(0..3)], &(0..n_in).map(|_| rng.gen()).collect::<Vec<u8>>()),
+        "shortlen" => enc_data(maddr, r.da, None, None, 0x08, &vec![9u8; n_in.saturating_sub(1)]),
+        "dhwrong" => enc_data(maddr, r.da, None, None, 0x0A, &vec![9u8; n_in + 2]),
         "token" => vec![0xDC, maddr, r.da],
         _ => vec![0x00, 0x55, 0xAA],
     }
@@ -399,7 +421,7 @@ fn one_run(log: &mut EvLog, seed: u64, thorough: bool, mode: &str) {
     dpm.enter_operate();
 
     // ---- fault plan
-    let fault_p: f64 = if mode == "clean" || mode == "neg" { 0.0 } else { [0.0, 0.03, 0.1, 0.3, 0.6][rng.gen_range(0..5)] };
+    let fault_p: f64 = if mode == "clean" || mode == "neg" { 0.0 } else if mode == "flags" { 0.05 } else { [0.0, 0.03, 0.1, 0.3, 0.6][rng.gen_range(0..5)] };
     let fault_len_us: i64 = rng.gen_range(50..800) * slot_us;
     let start_us: i64 = 0;
     let fault_until = start_us + fault_len_us;
@@ -538,6 +560,9 @@ fn one_run(log: &mut EvLog, seed: u64, thorough: bool, mode: &str) {
                     }
                 }
                 if matches!(r.dsap, Some(61) | Some(62)) { 4 + rng.gen_range(1..5) } else { 999 }
+            } else if mode == "flags" && in_faults && r.dsap == Some(60) && rng.gen_bool(0.5) {
+                // diagnosis replies with arbitrary, independently varied flag combinations
+                4 + 12
             } else if faulty {
                 rng.gen_range(0..(4 + SUBST.len() + if thorough { SUBST2.len() } else { 2 }))
             } else {
